@@ -189,8 +189,12 @@ impl World {
         }
     }
 
+    /// A history ends at the first violation of the property under test. Oracles of other
+    /// properties do not end it at once (their firing may be the first symptom of a defect that
+    /// breaks this property a few steps later), but not for long: the shadow state follows what
+    /// was observed, not what should have happened.
     pub fn stop(&self) -> bool {
-        !self.violations.is_empty() || !self.foreign.is_empty()
+        !self.violations.is_empty() || self.foreign.len() > 3
     }
 
     // ------------------------------------------------------------ ground truth figures
@@ -645,6 +649,9 @@ impl World {
         if matches!(self.op, Op::Idle | Op::Build) {
             self.viol(&["C08"], "detach_outside_operation", format!("detach(obj{}) while no pool operation was running", id));
         }
+        if matches!(self.op, Op::DropPool) && self.objs[id as usize].state == ObjState::Idle {
+            self.viol(&["C08"], "detach_on_pool_drop", format!("detach(obj{}) was called when the last pool handle was dropped: the manager may only be invoked from get / retain / take / resize / close / the return of an object", id));
+        }
         let o = &mut self.objs[id as usize];
         o.detach += 1;
         if o.detach > 1 {
@@ -710,12 +717,12 @@ impl World {
             let now = tokio::time::Instant::now();
             let t = &self.tasks[tk.task];
             let outer_due = match (t.kind.outer, t.started_at) {
-                (Some(d), Some(s)) => now >= s + d,
+                (Some(d), Some(s)) => s.checked_add(d).map(|dl| now >= dl).unwrap_or(false),
                 _ => false,
             };
             let abandoned = matches!(self.op, Op::Abandon(_) | Op::DropPool) || (matches!(self.op, Op::Poll(_)) && outer_due);
             let timeout_due = |d: Option<std::time::Duration>| match (d, t.call_started_at) {
-                (Some(d), Some(s)) => self.cfg.runtime && now >= s + d,
+                (Some(d), Some(s)) => self.cfg.runtime && s.checked_add(d).map(|dl| now >= dl).unwrap_or(false),
                 _ => false,
             };
             let by_timeout = match tk.kind {
